@@ -56,6 +56,10 @@ class C12(CheckBase):
         cmdk = rng.weighted([(8, 'extract-files'), (3, 'extract-unused'), (4, 'read')])
         dest = rng.choice(['out', 'out/', './out', 'out/.', 'ABS/out', 'out//', 'sub/../out', 'ABS/out/',
                            'lnk/../out2', 'lnk/../out2/', 'ABS/lnk/../out2', 'lnkout', 'lnkout/', 'sub/deep/../../out'])
+        if rng.chance(0.06):
+            # the root directory as destination: whatever dfs then tries to create there is refused by the simulated kernel
+            # (nothing outside the sandbox is ever touched); nothing may appear anywhere else instead
+            dest = rng.choice(['/', '//', '/.', '///'])
         g = []
         if rng.chance(0.3):
             g += ['--dir', rng.choice(['$', '.', '/', 'A', '-'])]
